@@ -688,7 +688,8 @@ def factory(params):
     def scenario(prefix, expect, visited=None, budget=0):
         return harness.run(lambda W: sched_body(W, start, prog), prefix,
                            tracing=True, expect=expect, horizon=60000,
-                           visited=visited, budget=budget)
+                           visited=visited, budget=budget if budget != 'replay' else 0,
+                           lenient=budget == 'replay')
     return scenario
 
 
@@ -699,7 +700,8 @@ def racing_factory(params):
     def scenario(prefix, expect, visited=None, budget=0):
         return harness.run(lambda W: body(W, plan, hr, history, True, True),
                            prefix, tracing=True, expect=expect,
-                           horizon=100000, visited=visited, budget=budget)
+                           horizon=100000, visited=visited, budget=budget if budget != 'replay' else 0,
+                           lenient=budget == 'replay')
     return scenario
 
 
@@ -750,6 +752,13 @@ def run(ctx):
                 'choices': '[0, 0, 1, ...]'})
 
 
+def _note_divergence(x):
+    if getattr(x, 'diverged', False):
+        print('  note: the recorded schedule cannot be followed on this tree '
+              '(different choice points); what the execution did instead is '
+              'judged below')
+
+
 def replay(ctx, case):
     harness.setup()
     ctx.count()
@@ -765,7 +774,8 @@ def replay(ctx, case):
         return
     if 'history' in case['params']:
         scenario = racing_factory(case['params'])
-        x = scenario(list(case['choices']), None, None, 0)
+        x = scenario(list(case['choices']), None, None, 'replay')
+        _note_divergence(x)
         res = x.result or {}
         viol = list(res.get('violations', ()))
         if x.failure is not None:
@@ -775,7 +785,8 @@ def replay(ctx, case):
                 ','.join(case['params']['history']), key), what, case)
         return
     scenario = factory(case['params'])
-    x = scenario(list(case['choices']), None, None, 0)
+    x = scenario(list(case['choices']), None, None, 'replay')
+    _note_divergence(x)
     res = x.result or {}
     viol = list(res.get('violations', ()))
     if x.failure is not None:
